@@ -330,26 +330,34 @@ where
     R: std::io::Read,
 {
     fn read(&mut self, buf: &mut [u8]) -> std::io::Result<usize> {
-        self.fill_inner()?;
-        match self {
-            Self::Prefix { prefix, .. } => {
-                // Prefix
-                let to_write = buf.len().min(prefix.remaining());
-                prefix.copy_to_slice(&mut buf[..to_write]);
-                Ok(to_write)
+        loop {
+            self.fill_inner()?;
+            let written = match self {
+                Self::Prefix { prefix, .. } => {
+                    // Prefix
+                    let to_write = buf.len().min(prefix.remaining());
+                    prefix.copy_to_slice(&mut buf[..to_write]);
+                    to_write
+                }
+                Self::Data { buffer, .. } => {
+                    let to_write = buf.len().min(buffer.remaining());
+                    buffer.copy_to_slice(&mut buf[..to_write]);
+                    to_write
+                }
+                Self::Mdc { mdc } => {
+                    let to_write = buf.len().min(mdc.remaining());
+                    mdc.copy_to_slice(&mut buf[..to_write]);
+                    to_write
+                }
+                Self::Done => return Ok(0),
+                Self::Unknown => unreachable!("error state"),
+            };
+
+            // `Ok(0)` means end of stream: only report it once everything, including the
+            // MDC, has been produced (an empty data phase must not look like the end).
+            if written > 0 || buf.is_empty() {
+                return Ok(written);
             }
-            Self::Data { buffer, .. } => {
-                let to_write = buf.len().min(buffer.remaining());
-                buffer.copy_to_slice(&mut buf[..to_write]);
-                Ok(to_write)
-            }
-            Self::Mdc { mdc } => {
-                let to_write = buf.len().min(mdc.remaining());
-                mdc.copy_to_slice(&mut buf[..to_write]);
-                Ok(to_write)
-            }
-            Self::Done => Ok(0),
-            Self::Unknown => unreachable!("error state"),
         }
     }
 
